@@ -167,13 +167,11 @@ std::string show(const Case &c) {
   return s;
 }
 
+// Input class carried by signatures (kept coarse: one defect should not fan
+// out into dozens of signatures; the replay file holds the full case).
 std::string klass_of(const Case &c) {
-  std::string k = c.cloud ? "cloud" : std::string("mesh,") + kFormName[c.form];
-  if (c.cloud) k += c.form ? ",dedup" : ",nodedup";
-  if (c.nm) k += c.nm == 1 ? ",vnormals" : ",cnormals";
-  if (c.tm) k += ",tex";
-  if (c.cm) k += c.cm == 1 ? ",rgb" : ",rgba";
-  return k;
+  if (c.cloud) return c.form ? "cloud,Finalize(true)" : "cloud";
+  return std::string("mesh,") + kFormName[c.form];
 }
 
 // --- building the draco geometry ------------------------------------------
@@ -489,9 +487,6 @@ bool check_ply(const Case &c, const PointCloud &src, mc::Ctx &ctx) {
     ctx.fail("ply:geometry-changed|" + which + "," + klass_of(c), "expected " + rg::show(exp) + " got " + rg::show(got));
     return false;
   }
-  if (c.cm) ctx.count(k_ply_cases_with_colours);
-  if (c.nm) ctx.count(k_ply_cases_with_normals);
-  if (c.tm) ctx.count(k_ply_cases_with_tex_ignored);
   return true;
 }
 
@@ -573,13 +568,7 @@ void run_case(const Case &c, mc::Ctx &ctx) {
     if (degenerate) ctx.count(k_cases_with_degenerate_face);
     if (duplicate) ctx.count(k_cases_with_duplicate_face);
     if (isolated) ctx.count(k_cases_with_isolated_vertex);
-  }
-  bool all_ok = true;
-  // OBJ carries positions, normals, tex coords (colours are not written)
-  if (c.cm == 0) {
-    const bool ok = check_obj(c, *g, ctx);
-    all_ok &= ok;
-    if (ok && !c.cloud) {
+    if (c.cm == 0) {
       // a seam = two corners of one vertex with different values
       auto seam = [&](int att) {
         for (int i = 0; i < 3 * c.F; ++i)
@@ -590,13 +579,16 @@ void run_case(const Case &c, mc::Ctx &ctx) {
       if (c.tm && seam(kTex)) ctx.count(k_obj_cases_with_tex_seam);
       if (c.nm >= 2 && seam(kNormal)) ctx.count(k_obj_cases_with_normal_seam);
     }
+    if (degenerate) ctx.count(k_stl_cases_with_degenerate_face);
   }
+  if (c.cm) ctx.count(k_ply_cases_with_colours);
+  if (c.nm) ctx.count(k_ply_cases_with_normals);
+  if (c.tm) ctx.count(k_ply_cases_with_tex_ignored);
+  bool all_ok = true;
+  // OBJ carries positions, normals, tex coords (colours are not written)
+  if (c.cm == 0) all_ok &= check_obj(c, *g, ctx);
   all_ok &= check_ply(c, *g, ctx);
-  if (!c.cloud) {
-    const bool ok = check_stl(c, static_cast<const Mesh &>(*g), ctx);
-    all_ok &= ok;
-    if (ok && degenerate) ctx.count(k_stl_cases_with_degenerate_face);
-  }
+  if (!c.cloud) all_ok &= check_stl(c, static_cast<const Mesh &>(*g), ctx);
   // outcome state: structure of the source geometry as held by draco
   {
     uint64_t h = mc::hash_combine(g->num_points(), g->num_attributes() * 7 + (c.cloud ? 1 : 0));
@@ -1062,7 +1054,7 @@ int main(int argc, char **argv) {
       "F <= 2 faces over 4 vertex ids, N <= 3 points; F = 0 / N = 0 excluded (the encoders refuse empty geometries)",
       "positions float32x3, normals float32x3, tex-coords float32x2, colours uint8x3/x4 - what draco's own writers emit",
       "plain configurations run over all 8 value sets and 3 mesh forms (quick: F = 2 lists over 3 ids); seam configurations: thorough = lists over 4 ids, "
-      "builder form x value sets {0,3,6} and raw form x value set 0; quick = lists over 3 ids, builder form, value set 0",
+      "builder form x value sets {0,5} and raw form x value set 3; quick = lists over 3 ids, builder form, value set 0",
       "OBJ point clouds are compared as sets: ObjDecoder deduplicates points by design",
       "tool part: fixed list of 24 files, -qp 0 -qt 0 -qn 0, -cl in {0,7,10}"};
   R.transition_counters = {"obj_roundtrips", "ply_roundtrips", "stl_roundtrips", "tool_process_spawns"};
@@ -1076,9 +1068,9 @@ int main(int argc, char **argv) {
   // quick: lists over 3 ids, value set 0, deduplicated (builder) form - the
   // form with shared value entries, i.e. non-trivial v/vt/vn index triplets
   for (int F = 1; F <= 2; ++F) add_seam_space(R, F, 3, 0, kBuilder, true, false);
-  for (int vs : {0, 3, 6})
+  for (int vs : {0, 5})
     for (int F = 1; F <= 2; ++F) add_seam_space(R, F, 4, vs, kBuilder, false, true);
-  for (int F = 1; F <= 2; ++F) add_seam_space(R, F, 4, 0, kRaw, false, true);
+  for (int F = 1; F <= 2; ++F) add_seam_space(R, F, 4, 3, kRaw, false, true);
   for (int N = 1; N <= 3; ++N) add_cloud_space(R, N);
   {
     std::vector<int> all;
@@ -1086,12 +1078,10 @@ int main(int argc, char **argv) {
     add_tool_space(R, "tools_24_files", all, false, true);
     add_tool_space(R, "tools_6_files", {3, 5, 7, 11, 17, 22}, true, false);
   }
-  R.require("obj_roundtrips", 1);
-  R.require("ply_roundtrips", 1);
-  R.require("stl_roundtrips", 1);
+  // vacuity guards on input classes (counted before the oracles run)
+  R.require("geometries_built", 1);
   R.require("obj_cases_with_tex_seam", 1);
   R.require("obj_cases_with_normal_seam", 1);
-  R.require("obj_values_not_bit_exact", 1);
   R.require("ply_cases_with_colours", 1);
   R.require("stl_cases_with_degenerate_face", 1);
   R.require("tool_pipelines_run", 1);
